@@ -19,5 +19,19 @@ PROPS = {
         "assumptions": ["transport keeps per-direction order (property precondition)", "harness oracle regenerates each expected message from (direction, index, size)"],
         "components": GBN_COMPONENTS,
         "expected_probes": ["c01.complete", "c01.seq-wrapped"],
+        "level_text": "Seeded search over schedules and fault sequences of the real Go-Back-N code in virtual time: every run is an exactly repeatable execution, thousands (quick) to >100k (thorough) of them with swarm-varied window sizes, timeouts, fault mixes and workloads; a violation is minimised and replayed in a fresh process. Evidence, not proof.",
+        "level_note": "Trusts the Go runtime, testing/synctest's virtual clock and the instrumenter's rewrite (channel ops, select, locks, spawns, sleeps are the scheduling points); the transport is a stub that keeps per-direction order as the property presupposes.",
     },
+}
+
+# Properties that are pure functions of their input: no schedule, clock, fault
+# or interleaving enters them, so deterministic simulation has nothing to decide.
+NOT_APPLICABLE = {
+    "C17": "pure functions (mnemonic codec, SID derivation): no schedule, clock, fault or multi-party behaviour for a simulator to control; the one multi-party consequence (stream-id wiring of client and server) is observed by the stub relay in the C05/C11 runs",
+    "C19": "pure functions (Serialize/Deserialize round trips): input enumeration, not simulation; the simulated transports decode every packet they carry but no claim is made from that",
+}
+
+# Properties not (yet) claimed by a check in this tree.
+UNCLAIMED = {
+    "C%02d" % i: "check not built yet in this tree (work in progress, see DESIGN.md)" for i in range(1, 21) if i not in (17, 19)
 }
